@@ -609,6 +609,25 @@ def rule_OR2_responder(ctx, tier):
             rr.ok("penalty re-sent unless the dispute was Rejected (send_transaction can answer %s)" % sorted(built), sample={"rule": "OR2r", "skip-penalty paths": "only under Rejected", "buildable verdicts": sorted(built)})
         else:
             rr.fail("ho:penalty-skipped:%s" % ",".join(sorted(bad)) if bad else "ho:penalty-skipped:?", "after a reorg the penalty is not re-sent when the dispute's re-send answers %s (only a rejection justifies giving the tracker up): the tracker is dropped although the node refused nothing" % sorted(bad), where=ho.line_of(d))
+        # the same for the penalty's own verdict: the tracker is queued for the no-refund delete only on paths where that verdict can
+        # only be Rejected ("already in the chain" — IrrevocablyResolved — is not a refusal)
+        pterm = og.strip(ctx.og.operand(ho, {"m": ho.term(p)["dest"]}))
+        pushes_ = sites(ho, "std::vec::Vec::<T, A>::push")
+        badp = set()
+        try:
+            ppaths = enumerate_paths(ctx, ho, ho.succ(p), stop=lambda x: x in pushes_ or is_iter_next(ho, x), budget=40000)
+        except RuntimeError:
+            ppaths = None
+        for path, facts, at_ret in ppaths or []:
+            if not (path and path[-1] in pushes_):
+                continue
+            badp |= _status_possible(ctx, facts, pterm, built) - {"Rejected"}
+        if ppaths is None:
+            rr.fail("ho:paths", "too many paths in handle_reorged_txs to judge when a tracker is given up", where=ho.span)
+        elif built and not badp:
+            rr.ok("reorged tracker given up only if the penalty's re-send was Rejected")
+        else:
+            rr.fail("ho:dropped-without-rejection:%s" % ",".join(sorted(badp)), "after a reorg the tracker is queued for deletion when the penalty's re-send answers %s: the node refused nothing (the penalty is already in the stronger chain), yet tracker and appointment are deleted without refund" % sorted(badp), where=ho.line_of(p))
     else:
         rr.fail("ho:sends:%s" % ",".join(sorted(kinds)), "handle_reorged_txs sends %s; expected the dispute and the penalty of each reorged tracker" % kinds, where=ho.span)
     if sites_containing(ho, "HashSet", "drain"):
